@@ -93,7 +93,22 @@ def sc_ckm(cfg):
                 raise Fault("constraint_kmeans")
             return labels, centers, 0.5, None, 1, []
 
-        with harness.patched(kc.KMeans, fit=parent_fit), harness.patched(kc, constraint_kmeans=ckm):
+        f_init = C.bool("fail_random_init") if not cfg["kmeans0"] else False
+
+        class NPF:
+            """the random initialisation (kmeans0=False) may fail too"""
+
+            def __getattr__(self, k):
+                return getattr(numpy, k)
+
+            class random:  # noqa: N801
+                @staticmethod
+                def RandomState(seed=None):
+                    if f_init:
+                        raise Fault("random initialisation")
+                    return numpy.random.RandomState(seed)
+
+        with harness.patched(kc.KMeans, fit=parent_fit), harness.patched(kc, constraint_kmeans=ckm, numpy=NPF()):
             try:
                 r = est.fit(X)
                 C.true(r is est, "fit-returns-self")
@@ -121,7 +136,7 @@ def sc_ckm(cfg):
                     f2.append(kw.get("max_iter"))
                     return labels, centers, 0.5, None, 1, []
 
-                with harness.patched(kc.KMeans, fit=parent_fit2), harness.patched(kc, constraint_kmeans=ckm_ok):
+                with harness.patched(kc.KMeans, fit=parent_fit2), harness.patched(kc, constraint_kmeans=ckm_ok, numpy=numpy):
                     est.fit(X)
                 want = ([mi // 2] if cfg["kmeans0"] else []) + [mi]
                 C.true(len(f2) == len(want), "ConstraintKMeans/refit-after-failure==fresh-fit/calls")
@@ -274,7 +289,8 @@ def sc_quantile(cfg):
                     raise Fault(f"inner solver {k}")
                 return super().fit(Xm, yy, sample_weight)
 
-        est = qr.QuantileLinearRegression(quantile=q, max_iter=2, delta=0.5)
+        with_intercept = bool(C.bool("fit_intercept"))
+        est = qr.QuantileLinearRegression(quantile=q, max_iter=2, delta=0.5, fit_intercept=with_intercept)
         before = est.get_params()
         c05.StubLR.log = []
         if C.symbolic:
@@ -302,6 +318,11 @@ def sc_quantile(cfg):
             except Fault:
                 ok = False
         _params_equal(C, before, est.get_params(), "QuantileLinearRegression/hyper-parameters-unchanged" + ("" if ok else "-after-a-failed-fit"))
+        inits = [r for r in c05.StubLR.log if r[0] == "init"]
+        handed = [r for r in c05.StubLR.log if r[0] == "fit" and r[1] is X]
+        # LinearRegression(copy_X=False).fit may overwrite what it is given: the caller's own array may only
+        # reach the inner solver together with copy_X=True
+        C.true(not handed or all(r[1].get("copy_X", True) is True for r in inits), "QuantileLinearRegression/the-caller's-X-is-never-handed-over-for-in-place-work(copy_X)", detail=dict(fit_intercept=with_intercept, inits=[r[1] for r in inits]))
         C.true(_same_cells(X, cx) and _same_cells(y, cy) and _same_cells(w, cw), "QuantileLinearRegression/fit-leaves-caller-data-untouched")
         # score must not write into a caller's float64 weight vector (in-place arithmetic on an alias)
         est2 = qr.QuantileLinearRegression(quantile=0.25 if cfg["q"] == "low" else (0.5 if cfg["q"] == "half" else 0.8))
